@@ -12,6 +12,7 @@ import (
 	"fmt"
 	"strings"
 	"testing"
+	"time"
 
 	schema "github.com/jsightapi/jsight-schema-core"
 	jbytes "github.com/jsightapi/jsight-schema-core/bytes"
@@ -807,6 +808,7 @@ func judgedWide(c Case) *ev.Verdict {
 func registerAll() {
 	ev.Register("wide", judgedWide)
 	ev.Register("random", judged)
+	ev.Register("interleaved", judgedInterleaved)
 	for _, n := range []string{"exhaustive-rule", "exhaustive-ast", "exhaustive-cons", "exhaustive-set"} {
 		ev.Register(n, oracle)
 	}
@@ -815,6 +817,158 @@ func registerAll() {
 func TestPropRandom(t *testing.T) {
 	registerAll()
 	ev.Rapid(t, "random", ev.N(8000, 20000), genCase, judged)
+}
+
+// ---- an iteration and a mutation by another goroutine: the iteration is one operation of the history
+
+// ICase: goroutine A iterates; inside the callback for the At-th element goroutine B is released and
+// performs one mutating operation. Whatever the schedule, the two operations take effect one after the
+// other: the iteration shows the content before the mutation or after it, never a mixture, and the final
+// content is that of the dictionary after the mutation.
+type ICase struct {
+	Container string   `json:"container"` // rule | ast | cons
+	Keys      []string `json:"keys"`
+	Iter      string   `json:"iter"` // each | eachsafe | find
+	At        int      `json:"at"`
+	Mut       Op       `json:"mut"`
+}
+
+var universe8 = []string{"a", "b", "c", `q"x`, "e", "f", "g", "h"}
+
+func interleaved(c ICase) *ev.Verdict {
+	base := Case{Container: c.Container, Ctor: "zero"}
+	a, ref, _ := build(base)
+	if a == nil {
+		return ev.V("harness:bad-container", "%s", c.Container)
+	}
+	for i, k := range c.Keys {
+		a.Set(k, fmt.Sprint(i+1))
+		ref.Set(k, fmt.Sprint(i+1))
+	}
+	var before []string
+	for _, k := range ref.Keys {
+		before = append(before, k+"="+ref.Vals[k])
+	}
+	release, done := make(chan struct{}), make(chan struct{})
+	go func() {
+		defer close(done)
+		defer func() { _ = recover() }()
+		<-release
+		switch c.Mut.Op {
+		case "delete":
+			a.Delete(c.Mut.K)
+		case "filter":
+			a.Filter(func(k, v string) bool { return in(c.Mut.Keep, k) })
+		case "set":
+			a.Set(c.Mut.K, c.Mut.V)
+		case "update":
+			a.Update(c.Mut.K, "0")
+		}
+	}()
+	var visited []string
+	n := 0
+	visit := func(k, v string) {
+		visited = append(visited, k+"="+v)
+		if n == c.At {
+			close(release)
+			time.Sleep(2 * time.Millisecond) // time for the other goroutine to run into the operation
+		}
+		n++
+	}
+	switch c.Iter {
+	case "each":
+		_ = a.Each(func(k, v string) error { visit(k, v); return nil })
+	case "eachsafe":
+		a.EachSafe(visit)
+	default:
+		a.Find(func(k, v string) bool { visit(k, v); return false })
+	}
+	if n <= c.At {
+		close(release)
+	}
+	select {
+	case <-done:
+	case <-time.After(10 * time.Second):
+		return ev.V(c.Container+":interleaved:mutation-never-returns", "%s by another goroutine during %s did not return within 10 s (keys %q)", c.Mut.Op, c.Iter, c.Keys)
+	}
+	// the model after the mutation
+	switch c.Mut.Op {
+	case "delete":
+		ref.Delete(c.Mut.K)
+	case "filter":
+		for _, k := range ref.Snapshot() {
+			if !in(c.Mut.Keep, k) {
+				ref.Delete(k)
+			}
+		}
+	case "set":
+		ref.Set(c.Mut.K, c.Mut.V)
+	case "update":
+		if ref.Has(c.Mut.K) {
+			ref.Vals[c.Mut.K] += "0"
+		}
+	}
+	var after []string
+	for _, k := range ref.Keys {
+		after = append(after, k+"="+ref.Vals[k])
+	}
+	got := strings.Join(visited, ",")
+	if got != strings.Join(before, ",") && got != strings.Join(after, ",") {
+		return ev.V(c.Container+":interleaved:"+c.Iter+":torn-by-"+c.Mut.Op, "%s over %v while another goroutine performs %v visited %v: neither the content before (%v) nor after (%v) the operation", c.Iter, c.Keys, c.Mut, visited, before, after)
+	}
+	fake := Case{Container: c.Container, Ops: []Op{c.Mut}}
+	for _, k := range c.Keys {
+		fake.Init = append(fake.Init, k)
+	}
+	return compare(fake, 0, a, ref)
+}
+
+func genICase(t *rapid.T) ICase {
+	c := ICase{Container: rapid.SampledFrom([]string{"rule", "ast", "cons"}).Draw(t, "container"), Iter: rapid.SampledFrom([]string{"each", "eachsafe", "find"}).Draw(t, "iter")}
+	uni := universe8
+	if c.Container == "cons" {
+		uni = universe
+	}
+	c.Keys = rapid.SliceOfNDistinct(rapid.SampledFrom(uni), 2, len(uni), func(s string) string { return s }).Draw(t, "keys")
+	c.At = rapid.IntRange(0, len(c.Keys)-1).Draw(t, "at")
+	key := rapid.SampledFrom(uni)
+	switch rapid.IntRange(0, 5).Draw(t, "mut") {
+	case 0, 1, 2:
+		c.Mut = Op{Op: "delete", K: key.Draw(t, "k")}
+	case 3:
+		c.Mut = Op{Op: "filter", Keep: rapid.SliceOfDistinct(key, func(s string) string { return s }).Draw(t, "keep")}
+		if c.Mut.Keep == nil {
+			c.Mut.Keep = []string{}
+		}
+	case 4:
+		c.Mut = Op{Op: "set", K: key.Draw(t, "k"), V: "9"}
+	default:
+		c.Mut = Op{Op: "update", K: key.Draw(t, "k")}
+	}
+	return c
+}
+
+func judgedInterleaved(c ICase) *ev.Verdict {
+	present := false
+	for i, k := range c.Keys {
+		if (c.Mut.Op == "delete" && k == c.Mut.K && i >= c.At) || (c.Mut.Op == "filter" && !in(c.Mut.Keep, k) && i >= c.At) {
+			present = true
+		}
+	}
+	if present {
+		b, _ := json.Marshal(c)
+		ev.NonTrivial("interleaved", string(b))
+		if ev.WantSample("interleaved") {
+			ev.Sample("interleaved", c)
+		}
+	}
+	ev.Class("interleaved", c.Iter+" while "+c.Mut.Op)
+	return interleaved(c)
+}
+
+func TestPropInterleaved(t *testing.T) {
+	registerAll()
+	ev.Rapid(t, "interleaved", ev.N(250, 2500), genICase, judgedInterleaved)
 }
 
 func TestPropWide(t *testing.T) {
